@@ -144,8 +144,10 @@ def main(tier):
                 continue
             out = py.roundtrip(j, cls)
             if out[0] != "ok":
-                if "Unsupported type" in out[1] or "no usable non-default" in out[1]:
-                    continue  # unsupported union: C14's subject, not an enum verdict
+                if ("Unsupported type" in out[1] or "no usable non-default" in out[1]) and any(s_[0] == "alt" for s_ in steps):
+                    continue  # an unsupported METAMODEL union: C14's subject, not an enum verdict
+                # (a Python-side union that exists only because the enumeration is open - Union[Enum, base],
+                # Optional[...] of it - is this check's subject: its use site needs a pass-through hook)
                 rep.fail("%s value rejected|%s|at=%s" % (cat, ename, site), {"structure": sname, "json": j, "error": out[1]})
                 continue
             d = mm.diff(j, out[1], root_t)
